@@ -38,9 +38,25 @@ ALPHABET = {
     'aggr2': {'asn4': (U(**AGG), U(**{**AGG, 'asn4': True, 'aggr': False})), 'asn2': (U(**AGG), U(**AGG))},
     'other': {'asn4': (U(med='zero'), U(med='zero')), 'asn2': (U(asn4=False, med='zero'), U(asn4=False, med='zero'))},
     'taw': {'asn4': (U(fault=['med', 'len']), None), 'asn2': (U(asn4=False, fault=['med', 'len']), None)},
+    # identical bytes on both sessions: an AS_PATH which reads as [64512 64513][65000] with 2-byte and [4227922945 33684968] with 4-byte AS numbers
+    'ambig': {'asn4': (U(path='P8'), U(path='P8')), 'asn2': (U(asn4=False, path='P7'), U(asn4=False, path='P7'))},
 }
-SESS = {'asn4': (True, True, False, False), 'asn2': (False, True, False, False)}
-SESS_IBGP = {'asn4': (True, True, True, False), 'asn2': (False, True, True, False)}
+# every message also exists on the third session (4-byte AS numbers, AIGP enabled by the neighbour): the bytes of session asn4
+for _per in ALPHABET.values():
+    _per['asn4a'] = _per['asn4']
+ALPHABET['aigp'] = {s: (U(asn4=s != 'asn2'), None) for s in ('asn4', 'asn2', 'asn4a')}      # bytes built in concrete(): base + AIGP attribute
+SESS = {'asn4': (True, True, False, False), 'asn2': (False, True, False, False), 'asn4a': (True, True, False, False, True)}
+SESS_IBGP = {'asn4': (True, True, True, False), 'asn2': (False, True, True, False), 'asn4a': (True, True, True, False, True)}
+AIGP_ATTR = bytes([0x80, 26, 11, 1, 0, 11]) + (1000).to_bytes(8, 'big')     # optional non-transitive, AIGP TLV (type 1, length 11, metric 1000)
+
+
+def with_attribute(raw: bytes, extra: bytes) -> bytes:
+    """the UPDATE `raw` with one more path attribute at the end of its attribute block"""
+    body = raw[19:]
+    wl = int.from_bytes(body[:2], 'big')
+    al = int.from_bytes(body[2 + wl : 4 + wl], 'big')
+    new = body[: 2 + wl] + (al + len(extra)).to_bytes(2, 'big') + body[4 + wl : 4 + wl + al] + extra + body[4 + wl + al :]
+    return raw[:16] + (19 + len(new)).to_bytes(2, 'big') + raw[18:19] + new
 
 
 def key_of(u):
@@ -57,8 +73,10 @@ def concrete(ck: Check) -> dict:
             k = key_of(ugen)
             if k not in table:
                 raise tlc.TLCError(f'the reference codec did not enumerate message {mid}/{s}: {diff(ugen)}')
-            out[(mid, s)] = (table[k], umean, ugen)
+            out[(mid, s)] = (with_attribute(table[k], AIGP_ATTR) if mid == 'aigp' else table[k], umean, ugen)
     assert out[('aggr2', 'asn4')][0] == out[('aggr2', 'asn2')][0], 'aggr2 must be the same bytes on both sessions'
+    assert out[('ambig', 'asn4')][0] == out[('ambig', 'asn2')][0], 'ambig must be the same bytes on both sessions'
+    assert out[('aigp', 'asn4')][0] == out[('aigp', 'asn4a')][0], 'aigp must be the same bytes on the two 4-byte sessions'
     return out
 
 
@@ -66,7 +84,7 @@ def sessions_for(ibgp: bool):
     from exabgp.bgp.message.update.attribute import Attribute
 
     Attribute.caching = True  # what application/server.py does by default (exabgp.cache.attributes)
-    return {name: updcheck.Session(*(SESS_IBGP if ibgp else SESS)[name]) for name in ('asn4', 'asn2')}
+    return {name: updcheck.Session(*(SESS_IBGP if ibgp else SESS)[name]) for name in ('asn4', 'asn2', 'asn4a')}
 
 
 def alone(session: str, hexbytes: str, ibgp: bool) -> dict:
@@ -89,7 +107,7 @@ def norm(obs: dict) -> dict:
 def run(tier: str) -> int:
     ck = Check('C19', tier, 'model_checking')
     ck.cov['rule'] = (
-        'cases = histories of (session, message) steps: every history of <= MaxLen steps over 7 message kinds x 2 sessions (4-byte / 2-byte AS), '
+        'cases = histories of (session, message) steps: every history of <= MaxLen steps over 9 message kinds x 3 sessions (4-byte / 2-byte AS / 4-byte AS with AIGP enabled), '
         'taken from the state dump of ExaUpdateHist after TLC checked HistoryFree on it; each history runs in one process on two real sessions; '
         'every step is compared by TLC with ExaUpdateIn!Outcome and with the same bytes decoded alone in a fresh interpreter, and every '
         'collection returned earlier is rendered again at the end; distinct = distinct histories; non-trivial = at least two steps'
